@@ -38,13 +38,14 @@ theorem rule_origin (d : Desc) (c : Compiled) (off : Option (Int × Int)) (s : S
 theorem genSam_ok (d : Desc) (c : Compiled) (off : Option (Int × Int)) (rules : List SamRule)
     (h : genSam d c off = .ok rules) :
     rules = samRules d c off ∧ checkNoOverlap (samAsMap rules) = true ∧
-    (∀ s ∈ rules, s.range.stop ≤ (2 : Int) ^ d.addrW) ∧ (rules.map (·.name)).Nodup := by
+    (∀ s ∈ rules, s.range.stop ≤ (2 : Int) ^ d.addrW) ∧
+    (rules.map fun r => snakeToCamel r.name).Nodup := by
   unfold genSam at h
   simp only at h
   by_cases h1 : ((samRules d c off).any fun r => decide (r.range.stop > (2 : Int) ^ d.addrW)) = true
   · rw [if_pos h1] at h; cases h
   rw [if_neg h1] at h
-  by_cases h0 : (decide ((samRules d c off).map (·.name)).Nodup) = false
+  by_cases h0 : (decide ((samRules d c off).map fun r => snakeToCamel r.name).Nodup) = false
   · rw [if_pos h0] at h; cases h
   rw [if_neg h0] at h
   by_cases h2 : checkNoOverlap (samAsMap (samRules d c off)) = false
